@@ -242,6 +242,45 @@ def parts(tier):
                         rule="all ordered pairs of interval sets (<=2) on the ulp-neighbour grid %s: overlaps and touches that differ by one ulp" % (ugrid,),
                         bounds={}))
 
+    def gen_blank():
+        small = D.cell_tiers(4, ["a"])
+        for ta in small:
+            for tb in small:
+                if tb:
+                    # every entry of B blank, and only the first one blank
+                    yield (_uniq(ta, "a"), tuple((s_, e_, "") for s_, e_, _ in tb))
+                    yield (_uniq(ta, "a"), tuple((s_, e_, "" if k == 0 else "x%d" % k) for k, (s_, e_, _) in enumerate(tb)))
+
+    def chk_blank(case):
+        ea, eb = case
+        A = IT("A", list(ea), 0.0, 4.0)
+        B = IT("B", list(eb), 0.0, 4.0)
+        FA, FB = ival.fentries(ea), ival.fentries(eb)
+        viols = []
+        for name, f, exp in (("difference", A.difference, ival.difference(FA, FB)),
+                             ("intersection", A.intersection, ival.intersection(FA, FB)),
+                             ("mergeLabels", A.mergeLabels, ival.merge_labels(FA, FB))):
+            st, r, _ = call(f, B)
+            if st == "exc":
+                viols.append(Viol(name + "-raised:" + type(r).__name__, f"A={ea} B={eb}: {r!r}"))
+                continue
+            msg = ival.compare_entries(ents(r), exp, True, name)
+            if msg:
+                viols.append(Viol(name + "-result", msg + f"  [A={ea} B={eb} (blank labels in B)]"))
+        st, u, _ = call(A.union, B)
+        if st == "exc":
+            viols.append(Viol("union-raised:" + type(u).__name__, f"A={ea} B={eb}: {u!r}"))
+        else:
+            comps = ival.union_components(FA, FB)
+            exp = sorted((min(p[0] for p in c), max(p[1] for p in c)) for c in comps)
+            if [(F(g[0]), F(g[1])) for g in ents(u)] != exp:
+                viols.append(Viol("union-result", f"union extents {[(g[0], g[1]) for g in ents(u)]} != {[(float(a), float(b)) for a, b in exp]}  [A={ea} B={eb}]"))
+        return 4, "ok", (tuple((s_, e_) for s_, e_, _ in ea), eb), viols
+
+    ps.append(InputPart("setops-blank-labels", gen_blank, chk_blank,
+                        rule="all ordered pairs of tiers on 4 cells where B's entries (all, or only the first) carry the EMPTY label: "
+                             "'overlaps something in B' is a matter of time, not of label text", bounds={"cells": 4}))
+
     def gen_points():
         grid = D.unit_grid(5)
         psets = D.point_sets(grid, 3 if quick else 5)
